@@ -1,6 +1,9 @@
 package main
 
 import (
+	"math/rand"
+	"strings"
+	"github.com/tdakkota/docker-logql/internal/logql/lexer"
 	"context"
 	"fmt"
 	"os"
@@ -21,9 +24,39 @@ func (emptyQuerier) SelectLogs(ctx context.Context, start, end otelstorage.Times
 
 // probeCmd: developer tool — parse and evaluate queries given as arguments over an empty store.
 func probeCmd(args []string) {
+	if len(args) > 0 && args[0] == "c05rej" {
+		r := rand.New(rand.NewSource(7))
+		hist := map[string]int{}
+		ex := map[string]string{}
+		for i := 0; i < 20000; i++ {
+			ls := genC05Valid(r)
+			text := renderLex(ls, 0)
+			if _, err := logql.Parse(text, logql.ParseOptions{}); err != nil {
+				msg := err.Error()
+				if j := strings.Index(msg, " at <input>"); j >= 0 {
+					msg = msg[:j]
+				}
+				hist[msg]++
+				ex[msg] = text
+			}
+		}
+		for k, v := range hist {
+			fmt.Printf("%6d %s\n        %s\n", v, k, ex[k])
+		}
+		return
+	}
 	for _, q := range args {
-		_, perr := logql.Parse(q, logql.ParseOptions{})
-		_, err := evalQuery(emptyQuerier{}, q, 10e9, 20e9, 0, -1)
+		e, perr := logql.Parse(q, logql.ParseOptions{})
+		toks, lerr := lexer.Tokenize(q, lexer.TokenizeOptions{})
+		fmt.Fprintf(os.Stdout, "tokens (%v):", lerr)
+		for _, t := range toks {
+			fmt.Fprintf(os.Stdout, " %s:%q", t.Type, t.Text)
+		}
+		fmt.Fprintln(os.Stdout)
+		if perr == nil {
+			fmt.Fprintln(os.Stdout, "  tree:", exprS(e).String())
+		}
+		_, err := evalQuery(emptyQuerier{}, q, 20e9, 20e9, 0, -1)
 		fmt.Fprintf(os.Stdout, "%q\n  parse: %v\n  eval:  %v\n", q, perr, err)
 	}
 }
